@@ -171,18 +171,6 @@ pub proof fn lemma_nola_best_is_longest(d: DfaCore, cls: Cls, rest: Seq<char>, b
 }
 
 
-pub proof fn lemma_len0_no_key(d: DfaCore)
-    requires d.lookaheads@.len() == 0
-    ensures forall|t: TerminalID| !d.lookaheads@.contains_key(t)
-{
-    reveal(best_inner); reveal(best_outer); reveal(fired_to);
-    if exists|t: TerminalID| d.lookaheads@.contains_key(t) {
-        let t = choose|t: TerminalID| d.lookaheads@.contains_key(t);
-        assert(d.lookaheads@.dom().contains(t));
-        vstd::set_lib::lemma_set_empty_equivalency_len(d.lookaheads@.dom());
-    }
-}
-
 pub proof fn lemma_key_len_pos(d: DfaCore, t: TerminalID)
     requires d.lookaheads@.contains_key(t)
     ensures d.lookaheads@.len() > 0
@@ -563,62 +551,6 @@ pub proof fn lemma_reach_in_range(d: DfaCore, cls: Cls, w: Seq<char>, t: int)
 
 // ---------------------------------------------------------------- C01: without lookaheads the outcome of a match attempt is unique
 /// the index of the first occurrence determines the terminal id
-pub proof fn lemma_prio_inj(d: DfaCore, t1: TerminalID, t2: TerminalID)
-    requires d.terminal_ids@.contains(t1), d.terminal_ids@.contains(t2), prio(d, t1) == prio(d, t2)
-    ensures t1 == t2
-{
-    lemma_prio_exists(d.terminal_ids@, t1, 0);
-    lemma_prio_exists(d.terminal_ids@, t2, 0);
-}
-
 /// a contained id has a first occurrence
-pub proof fn lemma_prio_exists(ids: Seq<TerminalID>, tid: TerminalID, from: int)
-    requires 0 <= from <= ids.len(), exists|p: int| from <= p < ids.len() && ids[p] == tid || ids.contains(tid) && from == 0,
-        forall|j: int| 0 <= j < from ==> ids[j] != tid
-    ensures exists|r: int| is_prio(ids, tid, r), is_prio(ids, tid, choose|r: int| is_prio(ids, tid, r))
-    decreases ids.len() - from
-{
-    if ids.contains(tid) && from == 0 {
-        let p = choose|p: int| 0 <= p < ids.len() && ids[p] == tid;
-        assert(0 <= p < ids.len() && ids[p] == tid);
-    }
-    assert(from < ids.len());
-    if ids[from] == tid {
-        assert(is_prio(ids, tid, from));
-    } else {
-        let p = choose|p: int| from <= p < ids.len() && ids[p] == tid;
-        assert(from + 1 <= p);
-        lemma_prio_exists(ids, tid, from + 1);
-    }
-}
-
 /// C01 "exactly the tokens": for an automaton without lookaheads `find_post` determines the reported token completely
 /// (the longest accepted non-empty prefix, and among the patterns accepting it the one listed first)
-pub proof fn lemma_find_post_unique(d: DfaCore, cls: Cls, text: Seq<char>, base: nat, m1: Match, m2: Match)
-    requires
-        wf_flat(d), d.lookaheads@.len() == 0,
-        find_post(d, cls, text, base, Some(m1)), find_post(d, cls, text, base, Some(m2)),
-    ensures m1.span.start == m2.span.start, m1.span.end == m2.span.end, m1.token_type == m2.token_type
-{
-    lemma_len0_no_key(d);
-    let t1 = TerminalID(m1.token_type as u32);
-    let t2 = TerminalID(m2.token_type as u32);
-    let l1 = choose|l: int| #[trigger] cand(d, cls, text, l, t1) && m1.span.end == base + blen(text.take(l))
-        && forall|l2: int, tid2: TerminalID| #[trigger] cand(d, cls, text, l2, tid2) ==> no_better(d, cls, text, l, t1, l2, tid2);
-    let l2 = choose|l: int| #[trigger] cand(d, cls, text, l, t2) && m2.span.end == base + blen(text.take(l))
-        && forall|l3: int, tid3: TerminalID| #[trigger] cand(d, cls, text, l3, tid3) ==> no_better(d, cls, text, l, t2, l3, tid3);
-    assert(no_better(d, cls, text, l1, t1, l2, t2));
-    assert(no_better(d, cls, text, l2, t2, l1, t1));
-    // without lookaheads the extent is the byte length of the prefix, which is strictly monotone in the length
-    assert(extent(d, cls, text, l1, t1) == blen(text.take(l1)));
-    assert(extent(d, cls, text, l2, t2) == blen(text.take(l2)));
-    if l1 < l2 { lemma_blen_take_mono(text, l1, l2); }
-    if l2 < l1 { lemma_blen_take_mono(text, l2, l1); }
-    assert(l1 == l2);
-    assert(prio(d, t1) == prio(d, t2));
-    // both token types are accepted by some state, hence listed
-    let s1 = choose|t: int| 0 <= t < d.states@.len() && #[trigger] reach(d, cls, text.take(l1), t) && d.end_states@[t] == (true, t1);
-    let s2 = choose|t: int| 0 <= t < d.states@.len() && #[trigger] reach(d, cls, text.take(l2), t) && d.end_states@[t] == (true, t2);
-    assert(d.end_states@[s1].0 && d.end_states@[s2].0);
-    lemma_prio_inj(d, t1, t2);
-}
